@@ -3,6 +3,7 @@ import RxVerif.Oracle
 import RxVerif.Spec.Eval
 import RxVerif.Conc.Observer
 import RxVerif.Conc.ToVec
+import RxVerif.Conc.Queue
 open Rx
 
 partial def sexpMentions (a : String) : Sexp → Bool
@@ -78,6 +79,30 @@ def cosimLine (model : String) (line : String) : String :=
           match go (ToVec.init script) 1 lbls with
           | .ok st => id ++ " ok " ++ st.summary ++ " ;; impl " ++ res
           | .error m => id ++ " REJECT " ++ m
+    | _ => id ++ " REJECT malformed payload"
+  | "queue" =>
+    match payload.splitOn " ; " with
+    | [cfgText, _stamps, labels] =>
+      let parts := ((cfgText.drop 4).toString.splitOn " / ")
+      let progs := parts.filterMap fun p => if p.startsWith "P:" then Queue.parseCalls (p.drop 2).toString else none
+      let bodies : List (Nat × List Queue.Call) := parts.filterMap fun p =>
+        if p.startsWith "B" then
+          match (p.drop 1).toString.splitOn ":" with
+          | [n, cs] => match n.toNat?, Queue.parseCalls cs with
+            | some k, some l => some (k, l)
+            | _, _ => none
+          | _ => none
+        else none
+      let cfg : Queue.Config := { progs := progs, body := fun t => ((bodies.find? (·.1 == t)).map (·.2)).getD [] }
+      match ((labels.splitOn ";").filter (· ≠ "")).mapM Queue.parseLabel with
+      | none => id ++ " REJECT unparsable label"
+      | some ls =>
+        match Queue.replay cfg ls with
+        | some st => id ++ " ok started=" ++ toString st.started ++ " finished=" ++ toString st.finished ++
+            " discarded=" ++ toString st.discarded ++ " queue=" ++ toString st.queue ++ " steps=" ++ toString ls.length
+        | none =>
+          let k := Queue.acceptedPrefix cfg (Queue.init cfg) ls
+          id ++ " REJECT label " ++ toString (k + 1) ++ " not enabled: " ++ ((ls[k]?).map toString).getD "?"
     | _ => id ++ " REJECT malformed payload"
   | _ => id ++ " REJECT unknown model"
 
